@@ -1062,19 +1062,19 @@ def _sub(name: str, quick: int, thorough: int, floor: int, must_hit) -> Sub:
 
 
 SUBCHECKS = [
-    _sub('alloc', 700, 30000, 50, ('alloc_after_free:solid', 'alloc_after_free:side', 'desired_live_id', 'cross_map_copy',
+    _sub('alloc', 700, 24000, 50, ('alloc_after_free:solid', 'alloc_after_free:side', 'desired_live_id', 'cross_map_copy',
                                    'copy_with_des_id', 'copy:ent', 'copy:solid', 'copy:side', 'copy:vis', 'copy:group',
                                    'drop_unreachable:solid', 'reattach:solid')),
-    _sub('recycle', 700, 30000, 50, ('alloc_after_free:ent', 'remove_ent_inmap', 'drop_unreachable:ent', 'reattach:ent',
+    _sub('recycle', 700, 24000, 50, ('alloc_after_free:ent', 'remove_ent_inmap', 'drop_unreachable:ent', 'reattach:ent',
                                      'op:gc')),
-    _sub('parse', 400, 20000, 50, ('parsed_colliding_ids', 'parsed_fixups', 'parsed_nodeid', 'grab:ent', 'grab:solid')),
-    _sub('nodeid', 500, 20000, 50, ('alloc_after_free:node', 'del_node', 'set_node_attached', 'set_node_detached',
+    _sub('parse', 400, 14000, 50, ('parsed_colliding_ids', 'parsed_fixups', 'parsed_nodeid', 'grab:ent', 'grab:solid')),
+    _sub('nodeid', 500, 14000, 50, ('alloc_after_free:node', 'del_node', 'set_node_attached', 'set_node_detached',
                                     'reattach:ent')),
-    _sub('fixup', 500, 20000, 50, ('alloc_after_free:fixup', 'fixup_list_duplicate_index', 'fixup_list_nonpositive_index',
+    _sub('fixup', 500, 14000, 50, ('alloc_after_free:fixup', 'fixup_list_duplicate_index', 'fixup_list_nonpositive_index',
                                    'fix_del', 'fixup_over_100')),
-    _sub('collapse', 400, 16000, 50, ('collapse_nonempty', 'collapse_twice', 'collapse_visgroup:True',
+    _sub('collapse', 400, 10000, 50, ('collapse_nonempty', 'collapse_twice', 'collapse_visgroup:True',
                                       'collapse_visgroup:False', 'collapse_visgroup:object')),
-    _sub('mixed', 800, 34000, 50, ('alloc_after_free:ent', 'parsed_colliding_ids', 'collapse_nonempty', 'drop_unreachable:ent')),
+    _sub('mixed', 800, 24000, 50, ('alloc_after_free:ent', 'parsed_colliding_ids', 'collapse_nonempty', 'drop_unreachable:ent')),
 ]
 
 MATCHERS = {}
